@@ -416,7 +416,10 @@ class LoaderGroup(Generic[_K, _L]):
         all_results = da.compute(all_tasks)[0]
         out = DataFrameDict()
         for key, result in zip(keys, all_results):
-            out[key] = pl.DataFrame(np.array(result), schema=schema)
+            # one column per function (a 2D array would be interpreted row-wise if square)
+            out[key] = pl.DataFrame(
+                {name: np.asarray(column) for name, column in zip(schema, result)}
+            )
         return out
 
     def fsc(
